@@ -27,6 +27,7 @@ type lat struct {
 	NoVerIn  bool // GossipVerifyIncoming=false
 	UDPBuf   int
 	LateKey  bool // keyring configured empty at creation; the key is installed afterwards
+	Frag     int  `json:",omitempty"` // > 0: every stream read returns at most this many bytes
 }
 
 func (l lat) String() string {
@@ -34,7 +35,11 @@ func (l lat) String() string {
 	if l.Label != "" {
 		lb = fmt.Sprintf("%dB", len(l.Label))
 	}
-	return fmt.Sprintf("enc=%s/%d comp=%v label=%s pmax=%d newtime=%v ipnames=%v verout=%v verin=%v buf=%d latekey=%v", l.Enc, l.KeyLen, l.Comp, lb, l.PeerPMax, l.NewTime, l.IPNames, !l.NoVerOut, !l.NoVerIn, l.UDPBuf, l.LateKey)
+	fr := ""
+	if l.Frag > 0 {
+		fr = fmt.Sprintf(" stream-reads<=%dB", l.Frag)
+	}
+	return fmt.Sprintf("enc=%s/%d comp=%v label=%s pmax=%d newtime=%v ipnames=%v verout=%v verin=%v buf=%d latekey=%v%s", l.Enc, l.KeyLen, l.Comp, lb, l.PeerPMax, l.NewTime, l.IPNames, !l.NoVerOut, !l.NoVerIn, l.UDPBuf, l.LateKey, fr)
 }
 
 func latKey(n int) []byte { return bytes.Repeat([]byte{0x5a}, n) }
@@ -75,9 +80,10 @@ type tapRec struct {
 }
 
 type pair struct {
-	s, r *node
-	l    lat
-	Tap  []tapRec
+	OuterLayer bool // label headers are stripped by the harness before delivery (SkipInboundLabelCheck deployments)
+	s, r       *node
+	l          lat
+	Tap        []tapRec
 	// Streams: bytes written by each side of each dialled stream
 	StreamsS2R [][]byte
 	StreamsR2S [][]byte
@@ -163,6 +169,14 @@ func (p *pair) wire(b *bubble, from, to *node) {
 				return
 			}
 		}
+		if p.OuterLayer {
+			// the deployment SkipInboundLabelCheck is made for: an outer layer strips the label header
+			rest, _, err := ml.RemoveLabelHeaderFromPacket(buf)
+			if err != nil {
+				return
+			}
+			buf = rest
+		}
 		to.T.Deliver(buf, from.Addr)
 	}
 	from.T.OnDial = func(a ml.Address, d time.Duration) (net.Conn, error) {
@@ -186,6 +200,14 @@ func (p *pair) wire(b *bubble, from, to *node) {
 		c2.onWrite = func(bs []byte) { (*back)[idx] = append((*back)[idx], bs...) }
 		if p.OnPipe != nil {
 			p.OnPipe(c1, c2)
+		}
+		if p.OuterLayer {
+			go func() {
+				if c, _, err := ml.RemoveLabelHeaderFromStream(c2); err == nil {
+					to.T.Accept(c)
+				}
+			}()
+			return c1, nil
 		}
 		to.T.Accept(c2)
 		return c1, nil
